@@ -185,6 +185,15 @@ func (t *lpTr) beRead(c *ast.CallExpr) string {
 
 func (t *lpTr) extStructBytes(e ast.Expr, b *lpBinds) (string, bool) {
 	switch x := e.(type) {
+	case *ast.IndexExpr:
+		// xs[i] on a slice of byte slices ([]net.IP field): loops_marshal.go
+		if bt := t.info.TypeOf(x.X); bt != nil && t.leanTy(bt) == "(List Bytes)" {
+			base := t.expr(x.X, b)
+			i := t.intExpr(x.Index, b)
+			n := t.tmp()
+			b.add(fmt.Sprintf("let %s ← listIdxI %s %s", n, base, i))
+			return n, true
+		}
 	case *ast.SelectorExpr:
 		if s, ok := t.fieldRead(x, b); ok {
 			return s, true
